@@ -102,26 +102,28 @@ PROP = dict(
     cases=dict(quick=1800, thorough=14400),
     level="proof",
     harness_timeout=2400,
+    coqc_timeout=3000,      # per shard; ~10 s of CPU, but the machine is shared
+
     rule="inputs drawn from 2-D and 3-D grids (sides 1..12, incl. 1 x n, n x 1, 1 x 1 x n, cubes, and long thin 2-D grids up "
          "to 8 x 100; at most 600 cells in the quick tier, 1728 in the thorough tier), iter_count 0..6, three weight streams: "
          "(a) i64 -- 11 families (uniform, sparse, skewed, all-zero, one dominant, random, gradient, two clusters, large < 2^46, "
-         "huge <= 2^52, giant <= 2^61); (b) f64 multiples of 2^-k, whose sums are exact whatever rayon's association -- the "
+         "huge <= 2^52, giant <= 2^61) plus band-edge inputs (totals 2^57..2^62 whose chunk boundary sits exactly on the accepted band's edge); (b) f64 multiples of 2^-k, whose sums are exact whatever rayon's association -- the "
          "integer families at k = 0 and 7 fractional families (uniform in [0,1) on a 2^-k grid, normalised to sum exactly 1, "
          "tiny ~1e-6, mixed magnitudes 2^-45..2^-5, sparse, all equal 2^-j); (c) arbitrary f64 fractions with full mantissas "
          "(uniform, normalised to sum ~1, tiny, mixed) -- checker only. Every input is run under the rayon pools 1,2,3,4,8,16 "
          "(quick) / 1..16 (thorough) in consecutive cases; for (a),(b) the model is run with the same T and the ids are compared "
          "exactly and the certified checker (i64: 1% + one unit; f64: 1% with no unit, relative allowance 2^-40) judges the ids "
-         "inside the range of the theorems (i64 total < 2^46, f64 total z < 2^53); for (c) the checker judges the ids against the "
+         "inside the range of the theorems (i64 total < 2^63 with the clause 1% + 1 unit below 2^46 and 1%*(1+2^-40) + 1 unit from 2^46 on, f64 total z < 2^53); for (c) the checker judges the ids against the "
          "exact weights z * 2^-k (no unit, allowance 2^-30). distinct = distinct (dims, weights, weight type, scale, iter_count, T); "
          "non-trivial = at least 4 cells, iter_count >= 1 and a non-zero total weight",
-    class_names={0: "Ok (model compared)", 3: "panic", 4: "hang", 5: "Ok (arbitrary f64 fractions: checker only)"},
+    class_names={0: "Ok (model compared)", 3: "panic", 4: "hang", 5: "Ok (arbitrary f64 fractions: checker only)",
+                 6: "Ok; outside the LITERAL 1% + 1 unit (i64 total >= 2^46), inside the proved 1%*(1+2^-40) + 1 unit"},
     trusted_base=[
         "axioms: C10_thresholds and C10_gridrcb_boxes_all use the axioms of Coq's classical real numbers through Flocq "
         "(ClassicalDedekindReals.sig_forall_dec, sig_not_dec, FunctionalExtensionality.functional_extensionality_dep, "
         "Classical_Prop.classic); every other theorem of Properties/C10.v is closed under the global context",
         "Flocq 4.1 (BinarySingleNaN correctness theorems, PrimFloat.binary_round_aux_equiv linking Coq's SpecFloat to Flocq)",
-        "modelled, not verified: i64 overflow of the weight sums (contract: total < 2^46 for the balance theorem, < 2^63 for "
-        "the run); f64 weights are modelled when they are multiples of one 2^-k with total z < 2^53 (every f64 sum the code "
+        "modelled, not verified: i64 overflow of the weight sums (contract: total < 2^63); f64 weights are modelled when they are multiples of one 2^-k with total z < 2^53 (every f64 sum the code "
         "forms is then exact, whatever the association, and the Z model applies to the integers z); arbitrary f64 weights are "
         "not modelled (rounded sums, pool-dependent association of the par_iter total): validated only, by the checker on the "
         "exact weights; "
@@ -130,7 +132,7 @@ PROP = dict(
     ],
     assumptions=[
         "sides >= 1 (NonZeroUsize), weights.len() = partition.len() = number of cells",
-        "weights are non-negative; i64 with total below 2^46, or f64 multiples of 2^-k (k <= 1000) with total z below 2^53 "
+        "weights are non-negative; i64 with total below 2^63 (the literal '1% + 1 unit' below 2^46; from 2^46 on it is false of the code -- C10_strict_band_refuted -- and 1%*(1+2^-40) + 1 unit is proved), or f64 multiples of 2^-k (k <= 1000) with total z below 2^53 "
         "(balance clause; termination, boxes and ids hold for any non-negative weights given the threshold facts)",
         "balance clause for f64 weights: within 1% of half with NO unit slack; the relative allowance 2^-40 (2^-30 on the "
         "arbitrary-fraction stream) only covers the rounding of the code's own thresholds ideal*fl(1-+TOLERANCE) (and, on that "
@@ -144,12 +146,12 @@ PROP = dict(
 MANIFEST = dict(
     text="Theorems about a line-by-line Gallina model of Grid::rcb (index_of/position_of, slab sums, the chunked weighted-median "
          "search with the pool size T as a parameter, f64 thresholds via SpecFloat, recurse_2d/3d, part_of), proved for ALL 2-D/3-D "
-         "grids with sides >= 1, all non-negative weights -- i64 with total < 2^46, or f64 multiples of 2^-k with total z < 2^53 "
+         "grids with sides >= 1, all non-negative weights -- i64 with total < 2^63, or f64 multiples of 2^-k with total z < 2^53 "
          "(fractional loads included; sums exact) --, all iter_count and ALL pool sizes T: the median search returns within log2(len)+1 iterations (C10_median_terminates; needs the generated "
          "minimum chunk count >= 2, and C10_median_T1_refuted / C10_gridrcb_T1_refuted show the old chunk count = T loops for ever at "
          "T = 1); Grid::rcb never panics or hangs, every cell gets an id < 2^iter_count, the ids are the path codes of a recursive "
          "axis-aligned bisection of depth <= iter_count whose non-empty leaves are at depth iter_count, and at every cut the low side "
-         "is within 1% of half the box weight (i64: +1 unit; f64: no unit, relative 2^-40 for the rounding of the two thresholds) "
+         "is within 1% of half the box weight (i64: +1 unit, and a relative 2^-40 more for totals >= 2^46 where the literal clause is refuted; f64: no unit, relative 2^-40 for the rounding of the two thresholds) "
          "or the slab just above the cut contains the half-weight mark "
          "(C10_gridrcb_boxes_all; the f64 facts about trunc(ideal*0.99), trunc(ideal*1.01) are proved with Flocq, C10_thresholds_i64 / _f64). Arbitrary f64 fractions are validated only (checker on exact weights). "
          "TOLERANCE, the minimum chunk count / chunk size and the starting axes are re-read from rcb.rs / mod.rs on every run; the "
@@ -158,7 +160,7 @@ MANIFEST = dict(
     design_ref="DESIGN.md §7 C10",
     note="Trusted: Coq kernel; classical-reals axioms (two theorems, via Flocq); the model<->code tie is the translator (TOLERANCE, "
          "min chunk count, min chunk size, start axes, threshold expressions) plus differential runs (1.8k/14.4k cases x pool sizes, "
-         "watchdog for hangs); SpecFloat = hardware f64; weight totals < 2^46 for the balance clause.",
+         "watchdog for hangs); SpecFloat = hardware f64; i64 totals < 2^63 (literal clause below 2^46, refuted and loosened by 2^-40 above), exact-dyadic f64 totals < 2^53.",
     technique="Coq proof (loop invariant + interval-halving measure, induction on iter_count, Flocq for the thresholds) + translator "
               "+ model/implementation correspondence under pools 1..16 + certified checker",
 )
